@@ -93,5 +93,36 @@ structure BumpIn (α : Type) where
 def bump (l : List (BumpIn α)) : List (α × α) :=
   l.map fun r => bump1 r.biofuel r.feed r.increase r.maxB r.maxF r.avail
 
+/-- `increase_biofuels_then_feed` on the monthly arrays: `bump1` month by month (as long as all
+    six series have an entry) -/
+def bumpAll : List α → List α → List α → List α → List α → List α → List (α × α)
+  | b :: bs, f :: fs, i :: is, mb :: mbs, mf :: mfs, a :: as =>
+    bump1 b f i mb mf a :: bumpAll bs fs is mbs mfs as
+  | _, _, _, _, _, _ => []
+
+/-! ### the "potential increase" of the third round (`compute_parameters_third_round`)
+
+Per month: half of the extra meat of round 3 over round 1 (billion kcals), converted to kcals per
+person per day (factor `u`), minus a constant, negatives clipped to zero, converted back.
+Same order of operations as the code: `Food.__sub__`, `/ 2`, `in_units_kcals_equivalent` (conversion
+`1 / 1 * u`, multiplied from the left), a second `in_units_kcals_equivalent` on the converted
+quantity (conversion `1 / u * u`), `− const`, `np.where(x < 0, 0, x)`,
+`in_units_bil_kcals_thou_tons_thou_tons_per_month` (conversion `1 / u * 1`). -/
+
+/-- one month; `a` = meat slaughtered in round 1, `b` = in round 3 (billion kcals) -/
+def increase1 (u const a b : α) : α :=
+  let d := (b - a) / 2.0
+  let e1 := (1 / 1 * u) * d
+  let e2 := (1 / u * u) * e1
+  let e3 := e2 - const
+  let z := if e3 < 0 then 0 else e3
+  (1 / u * 1) * z
+
+def thirdRoundIncrease (u const : α) (m1 m3 : List α) : List α :=
+  List.zipWith (increase1 u const) m1 m3
+
+/-- the constant of the rule of thumb: 100 kcals per person per day for New Zealand, 20 otherwise -/
+def nzlConst (code : String) : α := if code = "NZL" then 100.0 else 20.0
+
 end
 end Allfed.Handoff
